@@ -70,6 +70,7 @@ def gen_run(rng, stop=None, **over):
     return op
 
 
+@C.tolerant
 def sweep_ops(rng, exe, n_problems):
     """Exhaustive stop injection: for fixed runs, `stop()` during every event index."""
     ops = []
